@@ -139,6 +139,62 @@ def _values(col, ctx, shard):
                         col.violation('C09/values/var', '%s: accumulators[%d].var=%s, expected population variance %s' % (label, i, np.asarray(acc.var).tolist(), v.tolist()), case)
             col.outcomes.add((n1, n2, bs))
             col.sample({'case': case}, limit=1)
+    if shard['part'] == 0:
+        _failed_run_history(col, ctx, np, scared, asys)
+
+
+def _failed_run_history(col, ctx, np, scared, asys):
+    """Histories run OK -> run FAILING in set i (batch k) -> run OK on one analysis object (free threads): the failure must be re-raised, and the
+    run after it must again use every trace of both sets (per-set counters grow by exactly the set sizes) and leave a result."""
+    from mc.common import rng_for
+    rng = rng_for(ctx['seed'], 'c09-failhist')
+    armed = {'set': None, 'batch': None, 'seen': 0, 'exc': None}
+
+    @scared.preprocess
+    def pp(traces):
+        marker = 1 if traces[0, 0] >= 100 else 0
+        if armed['set'] == marker:
+            armed['seen'] += 1
+            if armed['seen'] - 1 == armed['batch']:
+                armed['exc'] = ValueError('injected failure'); raise armed['exc']
+        return traces
+    for (i, k) in ((0, 0), (0, 1), (1, 0), (1, 1), (1, 2)):
+        for bs in (2, 3):
+            a = scared.TTestAnalysis(precision='float64')
+            sets = []
+            for r in range(3):
+                A = rng.randint(0, 50, (6, 3)).astype('uint8'); B = rng.randint(0, 50, (5, 3)).astype('uint8'); B[:, 0] += 100
+                sets.append((A, B))
+            case = {'history': 'ok, failing(set %d, batch %d), ok' % (i, k), 'batch_size': bs}
+            label = 'history ok / failure in batch %d of set %d / ok, batch size %d' % (k, i, bs)
+            col.evaluations += 1; col.states += 3; col.transitions += 3; col.nontrivial += 1
+            try:
+                with asys.BatchSize(bs):
+                    armed.update(set=None, seen=0, exc=None)
+                    a.run(scared.TTestContainer(scared.traces.read_ths_from_ram(sets[0][0]), scared.traces.read_ths_from_ram(sets[0][1]), preprocesses=[pp]))
+                    armed.update(set=i, batch=k, seen=0, exc=None)
+                    raised = None
+                    try:
+                        a.run(scared.TTestContainer(scared.traces.read_ths_from_ram(sets[1][0]), scared.traces.read_ths_from_ram(sets[1][1]), preprocesses=[pp]))
+                    except BaseException as e:      # noqa - the observation
+                        raised = e
+                    if raised is None or raised is not armed['exc']:
+                        col.violation('C09/failure-history/not-reraised', '%s: the failing run raised %r, injected %r' % (label, raised, armed['exc']), case); continue
+                    armed.update(set=None, seen=0, exc=None)
+                    # the sibling of the failed thread is stopped cooperatively and may still be finishing its current batch after run() has
+                    # raised (what it adds is unspecified): wait until the counters are quiescent before taking the reference point
+                    import time
+                    before = None
+                    for _ in range(200):
+                        cur = [acc.processed_traces for acc in a.accumulators]
+                        if cur == before: break
+                        before = cur; time.sleep(0.05)
+                    a.run(scared.TTestContainer(scared.traces.read_ths_from_ram(sets[2][0]), scared.traces.read_ths_from_ram(sets[2][1]), preprocesses=[pp]))
+                    after = [acc.processed_traces for acc in a.accumulators]
+            except Exception as e:
+                col.violation('C09/failure-history/raised', '%s: %s %s' % (label, type(e).__name__, e), case); continue
+            if [x - y for x, y in zip(after, before)] != [6, 5]:
+                col.violation('C09/failure-history/run-after-failure-skips-traces', '%s: the run after the failed one processed %s traces of the two sets instead of [6, 5]' % (label, [x - y for x, y in zip(after, before)]), case)
 
 
 # ------------------------------------------------------------------------------------------------------------------ schedules
